@@ -100,6 +100,11 @@ def r_forward_ingest(ctx, db, est, max_items=3, state_assume=None, ctor_args=Non
                 pcs = pc_show(p.pc) or "unconditional"
                 if p.status == "return":
                     got, want, k, ended = p.ret
+                    again = [nt for nt in getattr(p.machine, "notes", []) if nt and nt[0] == "poll-after-none"]
+                    if again:
+                        ctx.ob("R-FORWARD", key + ":poll-after-none", fp, fsite, False,
+                               "%s calls next() again at %s after the input returned None: a non-fused iterator may then yield more items, "
+                               "which add() in a loop (and the sibling impls) never consume [path: %s]" % (kind, site(again[0][1]), pcs))
                     bad = R.exact_state_equal(p, got, want)
                     soft = p.inconclusive is not None
                     ok = not bad and ended
